@@ -71,6 +71,15 @@ def gamma_of_tag(tag, kind):
         return lambda c, k, mu, ss, team, rank: 1 / (rank + 1)
     if tag == "gt":
         return lambda c, k, mu, ss, team, rank: len(team) / k
+    if tag == "gm":
+        return lambda c, k, mu, ss, team, rank: abs(mu) / (abs(mu) + c)
+    if tag == "gp":
+        def gp(c, k, mu, ss, team, rank):
+            acc = 0.0
+            for r in team:
+                acc = acc + r.sigma
+            return acc / (c * float(len(team)))
+        return gp
     raise ValueError(tag)
 
 
